@@ -21,6 +21,7 @@ from .core import HarnessError, HOME
 T0_US = 1_800_000_000 * 1_000_000      # virtual epoch start: 2027-01-15T08:00:00Z
 NOBODY_UID, NOBODY_GID = 65534, 65534
 WATCHDOG_S = float(os.environ.get('VERIF_WATCHDOG_S', '20'))
+LAST_RUN = None
 
 
 def shim_path(ctx):
@@ -1068,4 +1069,7 @@ def run_cases(ctx, cases, run_case, make_world, key_of=None, determinism_n=12, n
         out['crashes'] += p['crashes']
         out['samples'] += p['samples'][:1]
     out['samples'] = out['samples'][:6]
+    global LAST_RUN
+    if LAST_RUN is None or out['violations'] or out['crashes']:
+        LAST_RUN = out      # core.main() falls back on it when a vacuity guard fires on a run that has violations
     return out
